@@ -22,7 +22,8 @@ RULE = (
     "time -, seeded store of 30-90 events concentrated on few kinds/authors/tag values so that filters have more, "
     "exactly as many and fewer matches than their limit, REQ of 1-5 well-formed filters with limit in "
     "{absent,0,1,2,cap-1,cap,cap+1,1e9}; stores include post-dated events (ahead of the relay's clock), some filters carry "
-    "an empty value list beside usable conditions). Non-trivial = some filter of the REQ has more possibly-matching stored events "
+    "an empty value list beside usable conditions); one shard per backend imports the purple server module before the "
+    "configuration is loaded, as a purple worker does). Non-trivial = some filter of the REQ has more possibly-matching stored events "
     "than its effective limit (truncation really had to happen) or exactly/one fewer than the limit. Distinct = distinct "
     "(backend, max_limit, store seed, canonical filter list)."
 )
@@ -32,7 +33,7 @@ ASSUMPTIONS = [
     "for REQs with several filters only events matching exactly one filter are attributed (conservative)",
 ]
 MIN_NONTRIVIAL = {"quick": 300, "thorough": 3000}
-REQUIRED_COUNTERS = ["reqs_truncating", "cap_checks", "recency_checks", "post_dated_events", "filters_with_empty_condition"]
+REQUIRED_COUNTERS = ["reqs_truncating", "cap_checks", "recency_checks", "post_dated_events", "filters_with_empty_condition", "purple_imported_before_config"]
 SHARD_TIMEOUT = {"quick": 500, "thorough": 3000}
 
 
@@ -44,6 +45,8 @@ def plan(tier, seed):
             for i in range(n):
                 shards.append({"backend": backend, "max_limit": cap, "case_seed": seed * 100003 + i * 7919 + cap,
                                "stores": stores, "reqs": reqs})
+    for backend in ("sql", "lmdb"):
+        shards.append({"backend": backend, "max_limit": 7, "case_seed": seed * 100003 + 77, "stores": 1, "reqs": 60, "purple_first": True})
     return shards
 
 
@@ -131,12 +134,22 @@ def judge(backend, cap, filters, delivered, stored, plans, counters):
     return viols, nontrivial
 
 
-async def run_store(backend, cap, store_seed, nreqs, counters, coverage, explicit=None):
+async def run_store(backend, cap, store_seed, nreqs, counters, coverage, explicit=None, purple_first=False):
     rig = R.Rig(backend=backend, config={"analysis_delay": 0, "max_limit": cap})
+    if purple_first:
+        # the import order of a `serve --use-purple` worker: the server module (and with it the web and storage
+        # packages) is imported BEFORE the worker reads its configuration file
+        from .. import env
+
+        env.setup_paths()
+        import nostr_relay.purple  # noqa: F401
+
+        counters["purple_imported_before_config"] = counters.get("purple_imported_before_config", 0) + 1
     await rig.start()
     from nostr_relay.storage import base
 
-    assert base.NostrQuery.model_fields["limit"].default == cap, "max_limit not captured"
+    if not purple_first:
+        assert base.NostrQuery.model_fields["limit"].default == cap, "max_limit not captured"
     viols, nontrivial, samples = [], [], []
     try:
         conn = rig.connect()
@@ -220,7 +233,11 @@ def run_shard(spec):
     counters, coverage = {}, {"backends": {spec["backend"]: 1}, "max_limits": {str(spec["max_limit"]): 1}}
     viols, nontrivial, samples = [], [], []
     for s in range(spec["stores"]):
-        v, nt, sm = R.run(run_store, spec["backend"], spec["max_limit"], spec["case_seed"] * 31 + s, spec["reqs"], counters, coverage)
+        v, nt, sm = R.run(run_store, spec["backend"], spec["max_limit"], spec["case_seed"] * 31 + s, spec["reqs"], counters, coverage, None, bool(spec.get("purple_first")))
+        if spec.get("purple_first"):
+            for x in v:
+                x["msg"] += " [server module imported before the configuration was loaded]"
+                x["replay"]["purple_first"] = True
         viols.extend(v)
         nontrivial.extend(nt)
         samples.extend(sm)
@@ -232,7 +249,7 @@ def run_shard(spec):
 
 def replay(rp, spec):
     counters, coverage = {}, {}
-    v, nt, sm = R.run(run_store, rp["backend"], rp["max_limit"], 0, 0, counters, coverage, rp)
+    v, nt, sm = R.run(run_store, rp["backend"], rp["max_limit"], 0, 0, counters, coverage, rp, bool(rp.get("purple_first")))
     v, seen = _dedup(v, cap=50)
     return {"evaluations": 1, "nontrivial": nt, "counters": counters, "coverage": coverage, "violations": v,
             "samples": sm, "inconclusive": []}
